@@ -32,6 +32,7 @@ structure ROpts where
   headerItems : List Str := [] -- the first --header-lines records
   multi : Nat := 0             -- 0 = off
   infoPrefix : Str := [32, 60, 32]
+  inputless : Bool := false    -- the input section (prompt and info line) is hidden
 
 def maxMulti : Nat := 2147483647
 
@@ -55,7 +56,9 @@ def noSepLine (o : ROpts) : Bool :=
   | .hidden => !o.separator
   | .default => false
 
-def promptLines (o : ROpts) : Nat := if noSepLine o then 1 else 2
+/-- Rows of the input section: none when it is hidden, else the prompt row and, unless the info is
+    inline or hidden without separator, the info row. -/
+def promptLines (o : ROpts) : Nat := if o.inputless then 0 else if noSepLine o then 1 else 2
 
 /-- The truncation of `printHighlighted` for a line wider than `mw` columns (width-1 characters). -/
 def fit (o : ROpts) (mw : Nat) (line : Str) (maxe0 : Nat) (hasPos : Bool) : Str :=
@@ -163,7 +166,7 @@ def maxItems (o : ROpts) : Nat := o.H - (promptLines o + o.header0.length + o.he
 def logical (o : ROpts) (v : View) : List Str :=
   let hdr0 := o.header0.map (headerRow o)
   let hdr0 := if o.layout = .reverse then hdr0 else hdr0.reverse
-  [promptRow o v.input v.found v.total v.nsel] ++
+  (if o.inputless then [] else [promptRow o v.input v.found v.total v.nsel]) ++
   (if promptLines o = 2 then [infoRow o v.found v.total v.nsel] else []) ++
   hdr0
 
